@@ -4,6 +4,7 @@ extracted model (driver ExC17) and through an independent Python reference evalu
 generated AST (the oracle)."""
 import itertools
 import sys
+import time
 
 from . import common
 from .common import Check
@@ -874,7 +875,16 @@ def run_check(ck):
         kids = t[2] if k == "call" else t[1] if k == "list" else [v for _, v in t[1]] if k == "dict" else []
         return max([len(kids)] + [widest(x) for x in kids])
 
+    spent = {}
+
     def ask(stream, prog, text, dsname="main", history=None, ctx=None, opts=None):
+        t0 = time.process_time()
+        try:
+            return ask1(stream, prog, text, dsname, history, ctx, opts)
+        finally:
+            spent[stream] = spent.get(stream, 0.0) + time.process_time() - t0
+
+    def ask1(stream, prog, text, dsname="main", history=None, ctx=None, opts=None):
         """One query: the reference on this program alone (datastore contents as they are), the
         implementation in this process as it is by now, the model on this text alone.
         opts: {"thread": worker thread the query runs on, "env": process-level settings while it runs} - neither is
@@ -927,7 +937,7 @@ def run_check(ck):
                                    "(exit 1 = the last query misses its expectation)")
             where = "" if history is None else f" (query {len(history) + 1} of a session, datastore {dsname})"
             ck.failing_input("C11:value-differs-from-text",
-                             f"{short!r}: the implementation {verb(got)} {show(got)[:300]}, its text {verb(want, 'denotes')} {show(want)[:300]}{where}", replay)
+                             f"{ascii(short)}: the implementation {verb(got)} {show(got)[:300]}, its text {verb(want, 'denotes')} {show(want)[:300]}{where}", replay)
         if len(ck.samples) < 6 and stream == "random" and kind == "value" and len(text) > 40:
             ck.sample({"query": text, "value": repr(payload)[:200]})
         if max(widest(e) for _, e in prog) > 2000:
@@ -1006,6 +1016,8 @@ def run_check(ck):
         ck.count("session-length=%d" % len(queries))
     HUNG[:] = impl.hung
     ck.coverage["worker_threads_that_never_came_back"] = list(impl.hung)
+    ck.coverage["cpu_seconds_per_stream"] = {k: round(v, 2) for k, v in sorted(spent.items())}
+    t_model = time.time()
 
     if have_driver and wire:
         model = common.run_driver("C11", wire)
@@ -1028,6 +1040,7 @@ def run_check(ck):
                 ck.disagreement("query", what + ("" if not stream.startswith("session") else f" (in a session, datastore {dsname})"),
                                 {"query": text, "stream": stream, "datastore": dsname, "model_outcome": show_outcome(out),
                                  "impl_outcome": show_outcome(wantw), "model_calls": mlog, "impl_calls": log})
+    ck.coverage["wall_seconds_extracted_model"] = round(time.time() - t_model, 2)
     if impl.echo_probe:     # a built-in registered through the public decorator with (*args) is not applied to its arguments
         ck.failing_input("C11:value-differs-from-text", f"{impl.echo_probe['query']!r} with `echo` registered as "
                          f"{impl.echo_probe['registered_as']}: the implementation {impl.echo_probe['observed']}, its text denotes "
